@@ -522,6 +522,28 @@ mut("listpair: slice deletion treated as one element (revert of fix F13)", ["R-L
         for value in removed_values:
             value.set_modeling_obj_container(None, None)''', '''        value = self[index]
         value.set_modeling_obj_container(None, None)''')], ["__delitem__", "slice"])
+mut("listsib: extend iterates its argument while appending (revert of fix F19)", ["R-LISTSIB"],
+    [(LL, "        for value in list(values):\n            self.append(value)", "        for value in values:\n            self.append(value)")],
+    ["extend", "snapshot"])
+twin("listsib: extend snapshot spelled as a tuple", ["R-LISTSIB"],
+     [(LL, "        for value in list(values):\n            self.append(value)", "        for value in tuple(values):\n            self.append(value)")])
+mut("listsib: *= n doubles the content at every step (revert of fix F18)", ["R-LISTSIB"],
+    [(LL, '''        initial_values = list(self)
+        if n <= 0:
+            self.clear()
+        for _ in range(n - 1):
+            self.extend(initial_values)''', '''        for _ in range(n - 1):
+            self.extend(self.copy())''')], ["__imul__", "doubles"])
+mut("listsib: *= 0 leaves the content", ["R-LISTSIB"],
+    [(LL, '''        if n <= 0:
+            self.clear()
+        for _ in range(n - 1):''', '''        for _ in range(n - 1):''')], ["__imul__", "n <= 0"])
+twin("listsib: snapshot taken with a comprehension, guard spelled n < 1", ["R-LISTSIB"],
+     [(LL, '''        initial_values = list(self)
+        if n <= 0:
+            self.clear()''', '''        initial_values = [value for value in self]
+        if n < 1:
+            self.clear()''')])
 mut("listpair: append stores the raw object", ["R-LISTPAIR"],
     [(LL, '''        value_to_set = ContextualModelingObjectAttribute(value)
         super().append(value_to_set)''', '''        value_to_set = ContextualModelingObjectAttribute(value)
